@@ -101,11 +101,9 @@ Fixpoint upd_w (p : list worker) (x : worker) : list worker :=
   | w :: r => if w_id w =? w_id x then x :: r else w :: upd_w r x
   end.
 
-Fixpoint remove_w (p : list worker) (i : N) : list worker :=
-  match p with
-  | [] => []
-  | w :: r => if w_id w =? i then r else w :: remove_w r i
-  end.
+(* HashMap::remove: the pool is a map, slot ids are unique *)
+Definition remove_w (p : list worker) (i : N) : list worker :=
+  filter (fun w => negb (w_id w =? i)) p.
 
 Fixpoint mem (i : N) (l : list N) : bool :=
   match l with [] => false | x :: r => (x =? i) || mem i r end.
